@@ -174,6 +174,12 @@ class SymToken:
     def __repr__(self):
         return f"<{self.family}:{self.zid}>"
 
+    def __vf_getattr__(self, I, name):
+        # any attribute of an arbitrary token is an (unknown) function of its identity: boolean for is_* names, integer otherwise
+        if name.startswith("is_"):
+            return z3.Function(f"{self.family}.{name}", z3.IntSort(), z3.BoolSort())(to_z3(self.zid))
+        return z3.Function(f"{self.family}.{name}", z3.IntSort(), z3.IntSort())(to_z3(self.zid))
+
     def __vf_compare__(self, I, op, a, b):
         import ast
         if isinstance(a, SymToken) and isinstance(b, SymToken) and a.family == b.family:
@@ -372,6 +378,9 @@ def install(I):
         "functools.partial": partial,
         "typing.cast": cast,
         "typing.TypeVar": lambda I, a, k: Opaque("TypeVar"),
+        # dataclasses.field(default=x | default_factory=f): the default value of the field (evaluated once per class here; the
+        # per-instance freshness of default_factory only matters for defaults that are mutated, which the subset does not track)
+        "dataclasses.field": lambda I, a, k: (I.call(k["default_factory"], [], {}) if "default_factory" in k else k.get("default")),
         "copy.copy": copy_,
         "<attr>.register_buffer": register_buffer,
         "torch.tensor": torch_tensor,
